@@ -2,10 +2,21 @@
 META = {
     "explanation": "One-step induction over the server-side command alphabet on the real dbus-auth.c handlers with ghost-modelled strings and credentials.",
     "outside": ["DBUS_COOKIE_SHA1 first response, keyring files, SHA-1 itself, hex decoding of DATA (the second-response acceptance test is covered by C08.sha1)", "the byte-level line splitter (process_command) and the 16 KiB buffering bound (_dbus_auth_do_work)",
-                "transport side: _dbus_transport_try_to_authenticate, do_reading gate, kernel credentials", "client side of the handshake"],
+                "transport side: _dbus_transport_try_to_authenticate itself (authorization callbacks), kernel credential retrieval (the do_reading / do_authentication gate is covered by C08.gate)", "client side of the handshake"],
 }
 QUICK_SHA = {(7, -1, 0), (7, 0, 1), (7, 3, 1), (7, 4, 1), (7, 2, 1), (7, 2, 2), (7, 6, 1), (7, 1, 3)}
+def _other(pid):
+    import importlib.util, os
+    p = os.path.join(os.path.dirname(__file__), pid + ".py")
+    spec = importlib.util.spec_from_file_location("vfjobs_x_" + pid, p); m = importlib.util.module_from_spec(spec); m.Job = Job; spec.loader.exec_module(m); return m
 def jobs(tier):
+    return _jobs(tier) + _gate(tier)
+def _gate(tier):
+    # transport side: "treats no byte before BEGIN as message data" — the socket step harness of C11.L5 asserts it at the loader's buffer
+    G = [j for j in _other("C11").jobs(tier) if j.name.startswith("L5.socket.")]
+    for j in G: j.name = "gate." + j.name[3:]; j.group = "C08.gate"
+    return G
+def _jobs(tier):
     return [Job(name="server_step", group="C08.step", harness="harness/C08_auth.c", env=["assert_stubs.c"], checks="assert", unwind=6, unwindset=["strcmp.0:50"], timeout=600,
                 encodes=["handle_server_state_waiting_for_auth", "handle_server_state_waiting_for_data", "handle_server_state_waiting_for_begin", "handle_auth", "process_data",
                          "find_mech", "handle_server_data_external_mech", "handle_server_data_anonymous_mech", "send_ok", "send_rejected", "send_error", "send_data",
